@@ -356,6 +356,14 @@ func c07BinTokens() [][]byte {
 	ts(0x81, 0x81, 0x81, 0x80, 0x80, 0x80, 0xCA, 0x02, 0xDF, 0xDC, 0x1C, 0x35) // 12345678901 d-10
 	ts(0x81, 0x81, 0x81, 0x80, 0x80, 0x80, 0xCA, 0x02, 0x54, 0x0B, 0xE4, 0x00) // 10^10 d-10
 	ts(0x81, 0x81, 0x81, 0x80, 0x80, 0x80, 0xCB, 0x17, 0x48, 0x76, 0xE8, 0x01) // 10^11+1 d-11
+	// lengths and IDs of 2^64 and more in ten VarUInt bytes (they do not fit the
+	// reader's 64 bits and must not be taken modulo 2^64), followed by as many bytes
+	// as the truncated number asks for
+	add(0x8E, 0x02, 0x80|0x00, 'h') // two-byte form is fine; the next ones are not
+	add(append([]byte{0x8E, 0x02, 0, 0, 0, 0, 0, 0, 0, 0, 0x85}, "hello"...)...)
+	add(append([]byte{0xBE, 0x03, 0, 0, 0, 0, 0, 0, 0, 0, 0x82}, 0x20, 0x20)...)
+	add(0x7E, 0x7F, 0, 0, 0, 0, 0, 0, 0, 0, 0x81, 0x04)
+	add(0xE4, 0x81, 0x02, 0, 0, 0, 0, 0, 0, 0, 0, 0x84, 0x20)
 	// UTC fields in range, but the offset carries the local date off the calendar
 	// (local year 10000 / 0); and the same through a fraction that rounds up
 	add(0x67, 0xBC, 0x4E, 0x8F, 0x8C, 0x9F, 0x97, 0x9E)       // 9999-12-31T23:30 UTC, offset +60
